@@ -1744,7 +1744,7 @@ def enum_cases(maxlen):
     return out
 
 
-QUICK = [("emit", 2000, 500), ("stack", 144, 48), ("cli", 96, 24), ("acts", 600, 300), ("shellf", 1000, 500), ("shell", 1500, 500)]
+QUICK = [("emit", 2000, 500), ("stack", 120, 40), ("cli", 72, 24), ("acts", 600, 300), ("shellf", 1000, 500), ("shell", 1200, 400)]
 THOROUGH = [("emit", 60000, 600), ("stack", 4000, 48), ("cli", 3000, 48), ("acts", 30000, 600), ("shellf", 60000, 600),
             ("shell", 100000, 600)]
 
